@@ -668,3 +668,84 @@ Proof.
   - apply uinvb_live.
   - split; [apply uinv_init | apply ubound_init].
 Qed.
+
+(* ------------------------------------------------------------------------------------------ *)
+(* what the socket loop reads from an address is a subsequence of what that exporter sent, in
+   sending order (the kernel may drop, it does not reorder or duplicate): with the sequence
+   numbering this gives "each datagram at most once" as NoDup of the delivered numbers *)
+Definition dgq_of (i : nat) (q : list (nat * msg)) : list msg :=
+  map snd (filter (fun p => Nat.eqb (fst p) i) q).
+
+Definition usent_ok (cfg : list ucfg) (s : ustate) : Prop :=
+  forall i a, nth_error (u_addrs s) i = Some a ->
+    exists cc, nth_error cfg i = Some cc /\
+      Sub (a_taken a ++ dgq_of i (u_dgq s) ++ map fst (a_unsent a)) (map fst (unumber 0 (uc_msgs cc))).
+
+Lemma usent_init : forall cfg, usent_ok cfg (u_init cfg).
+Proof.
+  intros cfg i a H. simpl in H. rewrite nth_error_map in H.
+  destruct (nth_error cfg i) eqn:E; simpl in H; inversion H; subst a; clear H.
+  exists u. split; auto. simpl. apply Sub_refl.
+Qed.
+
+Lemma dgq_of_snoc : forall i q j m, dgq_of i (q ++ [(j, m)]) = dgq_of i q ++ (if Nat.eqb j i then [m] else []).
+Proof.
+  intros. unfold dgq_of. rewrite filter_app, map_app. simpl. destruct (Nat.eqb j i); reflexivity.
+Qed.
+
+Lemma usent_ok_step : forall cfg dr s t s', usent_ok cfg s -> u_step dr s t = Some s' -> usent_ok cfg s'.
+Proof.
+  intros cfg dr s t s' U H. destruct s. unfold usent_ok in *. unfold u_step in H. simpl in H. simpl in U.
+  destruct t; step_cases H; simpl; try assumption.
+  all: intros j bb Hb; erewrite nth_error_upd in Hb by eassumption;
+       match type of Hb with context [Nat.eqb j ?k] => destruct (Nat.eqb_spec j k) as [->|Hne] end;
+       [ inversion Hb; subst bb; clear Hb;
+         match goal with Hn : nth_error _ _ = Some ?c |- _ => destruct (U _ _ Hn) as [cc [E1 E2]] end;
+         exists cc; split; [assumption|]; simpl
+       | destruct (U _ _ Hb) as [cc [E1 E2]]; exists cc; split; [assumption|] ].
+  - (* ReadFromUDP, same address *)
+    unfold dgq_of in *. simpl in E2. rewrite Nat.eqb_refl in E2. simpl in E2.
+    rewrite <- app_assoc. simpl. exact E2.
+  - (* other address *)
+    unfold dgq_of in *. simpl in E2. destruct (Nat.eqb_spec n j); [congruence|]. exact E2.
+  - exact E2.
+  - exact E2.
+  - (* send, lost or socket closed *)
+    rewrite Heql in E2. simpl in E2. rewrite app_assoc in E2. rewrite app_assoc.
+    apply Sub_drop_mid with (b := [m]). exact E2.
+  - exact E2.
+  - (* send, queued *)
+    rewrite Heql in E2. simpl in E2. rewrite dgq_of_snoc, Nat.eqb_refl. rewrite <- app_assoc. simpl. exact E2.
+  - rewrite dgq_of_snoc. destruct (Nat.eqb_spec i j); [congruence|]. rewrite app_nil_r. exact E2.
+Qed.
+
+Lemma Sub_map : forall A B (f : A -> B) a b, Sub a b -> Sub (map f a) (map f b).
+Proof. induction 1; simpl; [apply Sub_nil | apply Sub_skip | apply Sub_take]; auto. Qed.
+
+Lemma unumber_seq : forall l n, map fst (map fst (unumber n l)) = seq n (length l).
+Proof. induction l as [|[k b] r IH]; simpl; intros; auto. rewrite IH. reflexivity. Qed.
+
+Lemma usent_reach : forall cfg dr sched, usent_ok cfg (u_run dr sched (u_init cfg)).
+Proof.
+  intros cfg dr sched. generalize (usent_init cfg). generalize (u_init cfg).
+  induction sched; simpl; intros s U; auto. apply IHsched. unfold u_exec.
+  destruct (u_step dr s a) eqn:E; auto. eapply usent_ok_step; eauto.
+Qed.
+
+(* delivered sequence numbers of an address: no duplicate, none that was not sent, increasing
+   order is implied by being a subsequence of 0,1,2,... *)
+Lemma udp_at_most_once_lemma : forall cfg dr sched i,
+  let s := u_run dr sched (u_init cfg) in
+  Sub (proj i (u_log s)) (seq 0 (match nth_error cfg i with Some cc => length (uc_msgs cc) | None => 0 end)) /\
+  NoDup (proj i (u_log s)).
+Proof.
+  intros cfg dr sched i s.
+  assert (Sub (proj i (u_log s)) (seq 0 (match nth_error cfg i with Some cc => length (uc_msgs cc) | None => 0 end))) as S1.
+  { pose proof (udp_order_lemma cfg dr sched i) as O. fold s in O. cbv zeta in O.
+    pose proof (usent_reach cfg dr sched) as U. fold s in U. unfold taken in O.
+    destruct (nth_error (u_addrs s) i) as [a|] eqn:E.
+    - destruct (U _ _ E) as [cc [E1 E2]]. rewrite E1. rewrite <- unumber_seq.
+      eapply Sub_trans; [|exact O]. apply Sub_map. eapply Sub_drop_tail; eassumption.
+    - inversion O. apply Sub_nil_l. }
+  split; auto. eapply Sub_NoDup; [exact S1 | apply seq_NoDup].
+Qed.
